@@ -172,9 +172,19 @@ def detector_case(chk, F, scn, out, idx, group):
         extra.append(('BD$WORD%d' % (12 + (n % D) + 1), '999'))
         extra.append(('CytekP%02dG' % ((n % D) + 1), '99'))
     else:
-        _, lab, amp, R = scn
+        _, lab, amp, R, style = scn
         pns[n - 1] = ('Lbl%d' % lab['f'][0]) if lab['s'] == 'well' else None
-        pne[n - 1] = '%s,%s' % (rat_text(amp[0]), rat_text(amp[1]))
+
+        def spelled(f):
+            t = rat_text(f)
+            if style == 'decimal':
+                return t if '.' in t else t + '.0'
+            if style == 'padded':
+                return (t if '.' in t else t + '.') + '00'
+            if style == 'spaced':
+                return ' ' + t
+            return t
+        pne[n - 1] = '%s,%s' % (spelled(amp[0]), spelled(amp[1]))
         rng[n - 1] = R
     pairs = fcsgen.sample_pairs(2, names, [32] * D, rng, pne=pne, png=png, pnv=pnv, pns=pns, extra=extra)
     ev = [[i + 1 for i in range(D)], [i + 2 for i in range(D)]]
